@@ -7,6 +7,8 @@
   including the documented leniency.  No bound on file size, line length or nesting.
 -/
 import Gedcom.Lemmas.Listing
+import Gedcom.Lemmas.Legal
+import Gedcom.Props.C01
 namespace Gedcom.C02
 open Gedcom Gedcom.Dec
 
@@ -85,5 +87,56 @@ theorem accepts_iff (o : Opts) (s : Str) :
     | ok d => exact ⟨d, rfl⟩
     | error n => rw [hd] at this; simp [Outcome.listing] at this
     | panic c => rw [hd] at this; simp [Outcome.listing] at this
+
+/-- whatever the decoder accepts without multi-line continuation is a legal document in the
+    sense of C01: word tags, trimmed break-free values, pointers without `@`, record lines
+    without value, role nodes after a family -/
+theorem decode_legal (o : Opts) (hm : o.allowMultiLine = false) (s : Str) (d : Doc)
+    (h : decode o s = .ok d) : C01.Legal d := by
+  have hspec := decode_eq_spec o s
+  rw [h] at hspec
+  unfold scan at hspec
+  simp only [Outcome.listing] at hspec
+  split at hspec
+  · rename_i out hrun
+    -- the reference loop stopped early: then its outcome is an error or a panic, not `ok`
+    exfalso
+    have : ∀ (sc : ScanSt) (n : Nat) (ls : List Str) (out : ScanOutcome),
+        scanRun o sc n ls = .inl out → ∀ b l, out ≠ .ok b l := by
+      intro sc n ls
+      induction ls generalizing sc n with
+      | nil => intro out h; simp [scanRun] at h
+      | cons x xs ih =>
+        intro out h b l
+        rw [scanRun] at h
+        cases hs : scanStep o sc x with
+        | next s1 => rw [hs] at h; exact ih s1 (n + 1) out h b l
+        | error => rw [hs] at h; simp only [Sum.inl.injEq] at h; subst h; simp
+        | panic c => rw [hs] at h; simp only [Sum.inl.injEq] at h; subst h; simp
+    exact this _ _ _ _ hrun _ _ hspec.symm
+  · rename_i st hrun
+    simp only [ScanOutcome.ok.injEq] at hspec
+    have hinv0 : ScanInv ⟨[], none, false⟩ :=
+      ⟨by intro e he; simp at he, by intro e he; simp at he, by simp [ScanSt.entries, rolesOKL],
+       by simp [ScanSt.entries, famAfterL]⟩
+    have hinv := scanRun_inv o hm _ st 1 _ (splitLines_nobreak _) hinv0 hrun
+    obtain ⟨hleg, hroles⟩ := finish_legal st hinv
+    rw [← hspec.2] at hleg hroles
+    exact ⟨legalF_of_listing 0 d.nodes hleg, by rw [(roles_listingF false 0 d.nodes).1]; exact hroles⟩
+
+/-- **Normal form.** Re-encoding a decoded document gives text that decodes (under any
+    options) to the same tree, and hence re-encodes to the same bytes.  Proved for decoding
+    without `AllowMultiLine`; with it the clause is checked on the implementation for every
+    generated input (one known finding, see known_findings.json). -/
+theorem normal_form (o : Opts) (hm : o.allowMultiLine = false) (s : Str) (d : Doc)
+    (h : decode o s = .ok d) (o' : Opts) :
+    decode o' (encode d) = .ok d ∧
+    (∀ d', decode o' (encode d) = .ok d' → encode d' = encode d) := by
+  have hd := C01.decode_encode d (decode_legal o hm s d h) o'
+  refine ⟨hd, ?_⟩
+  intro d' h'
+  rw [hd] at h'
+  simp only [Outcome.ok.injEq] at h'
+  rw [h']
 
 end Gedcom.C02
